@@ -5,6 +5,7 @@ import EaselModel.Stats.HistMass
 import EaselModel.Stats.HistCompose
 import EaselModel.Stats.FitReal
 import EaselModel.Stats.GumbelConcave
+import EaselModel.Stats.MinLemmas
 /-! # C11 — property theorems (statements + glue only; lemmas live in `EaselModel/Stats/*`)
 
 Histogram half. `Hist` is the line-by-line model of `esl_histogram.c` (`EaselModel/Stats/Histogram.lean`), run bit-for-bit
@@ -238,5 +239,54 @@ theorem gumbel_fits_terminate (f : ℝ → ℝ × ℝ) (variance : ℝ) (b : Boo
     (hbig : 0 < piConst / Num.sqrt ((6.0 : ℝ) * variance) → 1000 < piConst / Num.sqrt ((6.0 : ℝ) * variance) * 2 ^ 2199) :
     gumbelLambda f variance b ≠ .fault :=
   gumbelLambda_no_hang f variance b hr hbig
+
+/-! ## The conjugate-gradient fits (model `Minimizer.lean` + `FitCG.lean`, compared with the C code on every run)
+
+For these routines the property is claimed as: always a documented status, the location is the smallest observation, and a
+return of eslOK means the optimiser's stopping rule held. That the point reached is the global likelihood maximiser is NOT a
+theorem (monitored on the implementation: local pattern search + recovery on exact quantile grids). -/
+
+/-- `esl_min_ConjugateGradientDescent`, for EVERY objective, gradient, configuration, start point and numeric class: the outcome is a
+    status in {eslOK, eslENOHALT, eslERANGE, eslENORESULT}; eslOK ⇒ the stopping rule held (zero start gradient, or
+    `esl_DCompare(fx, oldfx, cg_rtol, cg_atol)`, or a zero conjugate direction) and `fx` is finite; failures carry no "converged" claim. -/
+theorem cg_return_means_stopping_rule {α : Type} [Num α] (cfg : MinCfg α) (f : Array α → α) (df : Option (Array α → Array α)) (x0 : Array α) :
+    CGPost cfg (cgd cfg f df x0) :=
+  cgd_post cfg f df x0
+
+/-- termination: the main loop (`max_iterations`) and `bracket()` (`brack_maxiter`) are capped in the code and total in the model; the one
+    uncapped loop is `brent()`'s `while (1)`: the model's `.hang` outcome arises ONLY from a line search exceeding 100000 passes
+    (never observed; the C side is watched by a timer). Since bad2f4e a non-finite interval ends that loop at once. -/
+theorem cg_hangs_only_in_brent {α : Type} [Num α] (cfg : MinCfg α) (f : Array α → α) (df : Option (Array α → Array α)) (x0 : Array α)
+    (h : (cgd cfg f df x0).1 = .hang) : ∃ (fline : α → α) (a b : α), brentCG cfg fline a b = none :=
+  cgd_hang cfg f df x0 h
+
+/-- `esl_wei_FitComplete` and `esl_sxp_FitComplete`: documented status, `mu = esl_vec_DMin(x)`, eslOK ⇒ stopping rule. -/
+theorem weibull_sxp_fit_post {α : Type} [Num α] (xs : Array α) (st : St) (ps : Array α) :
+    (weiFitComplete xs = .res st ps →
+      (st = .ok ∨ st = .enohalt ∨ st = .erange ∨ st = .enoresult) ∧ ps.getD 0 Num.zero = vmin xs ∧ ps.size = 3 ∧
+      (st = .ok → (weiCG xs).2.2 = .converged ∨ (weiCG xs).2.2 = .zeroDirection ∨ (weiCG xs).2.2 = .zeroGradient)) ∧
+    (sxpFitComplete xs = .res st ps →
+      (st = .ok ∨ st = .enohalt ∨ st = .erange ∨ st = .enoresult) ∧ ps.getD 0 Num.zero = vmin xs ∧ ps.size = 3 ∧
+      (st = .ok → (sxpCG xs).2.2 = .converged ∨ (sxpCG xs).2.2 = .zeroDirection ∨ (sxpCG xs).2.2 = .zeroGradient)) :=
+  ⟨weiFit_post xs st ps, sxpFit_post xs st ps⟩
+
+/-- `esl_gumbel_FitTruncated`: status in {eslOK, eslEINVAL (n ≤ 1), eslENORESULT (all values equal, or no convergence), eslERANGE};
+    every failure returns `(0, 0)`; eslOK ⇒ stopping rule. -/
+theorem truncated_gumbel_fit_post {α : Type} [Num α] (xs : Array α) (phi : α) (st : St) (ps : Array α)
+    (h : gumbelFitTruncated xs phi = .res st ps) :
+    (st = .ok ∨ st = .einval ∨ st = .enoresult ∨ st = .erange) ∧ ps.size = 2 ∧ (st ≠ .ok → ps = #[Num.zero, Num.zero]) ∧
+    (st = .ok → (tevdCG xs phi).2 = .converged ∨ (tevdCG xs phi).2 = .zeroDirection ∨ (tevdCG xs phi).2 = .zeroGradient) :=
+  gumbelFitTruncated_post xs phi st ps h
+
+/-- over ℝ, `esl_vec_DMin` is the smallest observation (non-empty data) -/
+theorem cg_fit_location_is_minimum (xs : Array ℝ) (hn : 0 < xs.size) : vmin xs ∈ xs.toList ∧ ∀ x ∈ xs.toList, vmin xs ≤ x := by
+  have hx0 : xs.getD 0 Num.zero ∈ xs.toList := by
+    rw [Array.getD_eq_getD_getElem?]
+    have : xs[0]? = some xs[0] := by simp [hn]
+    rw [this]; simp
+  obtain ⟨⟨_, h2⟩, h3⟩ := foldl_min xs.toList (xs.getD 0 Num.zero)
+  unfold vmin minOf
+  rw [← Array.foldl_toList]
+  exact ⟨h3.elim (fun e => by rw [e]; exact hx0) id, h2⟩
 
 end EaselModel.Props.C11
